@@ -12,6 +12,8 @@ import ClairModel.Proofs.CvssV2
 import ClairModel.Proofs.CvssRange
 import ClairModel.Proofs.CvssTables
 import ClairModel.Proofs.CvssPrint
+import ClairModel.Proofs.CvssPrint2
+import ClairModel.Proofs.CvssPrint4
 
 namespace ClairModel.Props.C18
 open ClairModel ClairModel.Cvss ClairModel.CvssSpec ClairModel.Gen.Cvss
@@ -190,5 +192,26 @@ theorem print_parse_v3 (v : Vec) (hv : Valid3 v) : parse3 (print3 v) = some v :=
 theorem print_canonical_v3 {s : Bytes} {v : Vec} (h : parse3 s = some v) :
     (parse3 (print3 v)).map print3 = some (print3 v) := by
   rw [parse3_print3_parse3 h]; rfl
+
+/-- `ParseV2` returns exactly the valid vectors: six base metrics, the
+    temporal and the environmental group each complete or absent, every byte
+    the packed form of a value of its metric -/
+theorem parse_v2_returns_exactly_valid (v : Vec) : (∃ s, parse2 s = some v) ↔ Valid2 v :=
+  ⟨fun ⟨_, h⟩ => parse2_sound h, fun h => ⟨print2 v, parse2_print2 v h⟩⟩
+
+/-- print–parse, v2 (including the ND placeholders `marshalVector` emits and
+    drops for unset groups, and the packed multi-letter values) -/
+theorem print_parse_v2 (v : Vec) (hv : Valid2 v) : parse2 (print2 v) = some v :=
+  parse2_print2 v hv
+
+/-- `ParseV4` returns exactly the valid vectors: eleven base metrics present,
+    every present metric holds a value of its grammar class -/
+theorem parse_v4_returns_exactly_valid (v : Vec) : (∃ s, parse4 s = some v) ↔ Valid4 v :=
+  ⟨fun ⟨_, h⟩ => parse4_sound h, fun h => ⟨print4 v, parse4_print4 v h⟩⟩
+
+/-- print–parse, v4 (fixed metric order, optional metrics skipped, Provider
+    Urgency spelled out) -/
+theorem print_parse_v4 (v : Vec) (hv : Valid4 v) : parse4 (print4 v) = some v :=
+  parse4_print4 v hv
 
 end ClairModel.Props.C18
